@@ -211,6 +211,16 @@ func (c *Channel) JoinPresence(ctx context.Context, p stanza.Presence, opt ...Op
 		c.addr = newAddr
 	}
 
+	// The room stops being managed when we leave (or are removed from) it, so
+	// make sure that it is before asking to join (again): otherwise the room's
+	// answer to a rejoin is not recognised and the call can only time out.
+	c.client.managedM.Lock()
+	if c.client.managed == nil {
+		c.client.managed = make(map[string]*Channel)
+	}
+	c.client.managed[c.addr.String()] = c
+	c.client.managedM.Unlock()
+
 	ctx, cancel := context.WithCancel(ctx)
 	defer cancel()
 
